@@ -178,6 +178,10 @@ func init() {
 			if c%40 == 5 {
 				nreg = 1 + r.n(2)
 			}
+			var mine []string // what this case registers: each is rendered below, not left to the sampling
+			if c%40 == 7 {
+				nreg++
+			}
 			for i := 0; i < nreg; i++ {
 				n := fmt.Sprintf("style%d-%d", c, i)
 				if r.chance(1, 3) {
@@ -186,16 +190,28 @@ func init() {
 				if c%40 == 5 && i == 0 {
 					n = "" // the empty string is a name like any other: registered, listed, selectable
 				}
-				switch r.n(12) {
+				k := r.n(12)
+				if c%40 == 7 && i == nreg-1 {
+					k = 3
+				}
+				mine = append(mine, n)
+				switch k {
 				case 0:
 					n = fmt.Sprintf("my.style%d", c)
+					mine[len(mine)-1] = n
 				case 1:
 					n = caseVariant(r, r.pick(subpkgs[:4]))
 					if n == strings.ToLower(n) {
 						n = strings.ToUpper(n)
 					}
+					mine[len(mine)-1] = n
 				case 2:
 					g.do("register " + hx(n) + " " + showDecor(decoration.Decoration{}))
+					continue
+				case 3:
+					// only the template fields that no renderer reads, never completed by Populate: not the
+					// empty decoration, so a registered name like any other (it draws no lines at all)
+					g.do("register " + hx(n) + " " + showDecor(decoration.Decoration{Horizontal: "-", Vertical: "|", TopDown: r.pick([]string{"", "+"}), VBorder: r.pick([]string{"", "|"})}))
 					continue
 				}
 				g.do("register " + hx(n) + " " + g.customDecor())
@@ -245,6 +261,15 @@ func init() {
 						known = append(known, tag)
 					} else {
 						viol = append(viol, fmt.Sprintf("listed style %q does not render: %s", s, cl))
+					}
+				}
+			}
+			for _, s := range mine {
+				if _, cl, _ := render(s); cl != "ok" {
+					if ok, tag := plain(have, s); !ok {
+						known = append(known, tag)
+					} else {
+						viol = append(viol, fmt.Sprintf("registered style %q does not render: %s", s, cl))
 					}
 				}
 			}
